@@ -21,11 +21,12 @@ Definition R_sq (s1 s2 : seg) : Prop :=
   s_frg s1 = s_frg s2 /\ s_data s1 = s_data s2 /\ s_xmit s1 = s_xmit s2 /\ s_acked s1 = s_acked s2 /\
   s_fastack s1 = s_fastack s2 /\ s_rto s1 = s_rto s2.
 
-(* numbered: sn shifted; timers shifted once transmitted *)
+(* numbered: sn and timers shifted (a full flush transmits every segment it numbers in the same
+   call, so between calls every snd_buf segment carries real timestamps) *)
 Definition R_sb (p : shp) (s1 s2 : seg) : Prop :=
   R_sq s1 s2 /\ s_conv s1 = s_conv s2 /\ s_cmd s1 = s_cmd s2 /\ s_sn s2 = sh (ko p) (s_sn s1) /\
-  (s_xmit s1 <> 0 -> s_ts s2 = sh (co p) (s_ts s1) /\ s_resendts s2 = sh (co p) (s_resendts s1) /\
-                     s_una s2 = sh (kp p) (s_una s1) /\ s_wnd s1 = s_wnd s2).
+  s_ts s2 = sh (co p) (s_ts s1) /\ s_resendts s2 = sh (co p) (s_resendts s1) /\
+  s_una s2 = sh (kp p) (s_una s1) /\ s_wnd s1 = s_wnd s2.
 
 (* received: number shifted, payload equal *)
 Definition R_rcv (p : shp) (s1 s2 : seg) : Prop :=
